@@ -33,6 +33,36 @@ MODULES = {
 }
 
 
+def _shard_worker(args):
+    prop, tier, seed, index, count = args
+    mod = importlib.import_module("harness." + MODULES[prop])
+    theorems = getattr(mod, "THEOREMS_BY_PROP", {}).get(prop) or mod.THEOREMS
+    run = core.Run(prop, tier, seed, theorems)
+    run.set_shard(index, count)
+    mod.run_prop(prop, run)
+    return {"cases": run.cases, "failures": run.failures, "extra": run.extra, "rule": run.rule,
+            "assumptions": run.assumptions, "exhaustive": run.exhaustive}
+
+
+def run_sharded(mod, prop: str, run: core.Run, jobs: int) -> None:
+    """thorough tier: the workload of `run_prop` split over `jobs` forked workers (each with its own PRNG stream
+    derived from seed/property/index); cases, failures and counters are merged into `run` in worker order"""
+    import multiprocessing
+    with multiprocessing.get_context("fork").Pool(jobs) as pool:
+        parts = pool.map(_shard_worker, [(prop, run.tier, run.seed, i, jobs) for i in range(jobs)], chunksize=1)
+    for i, part in enumerate(parts):
+        run.cases.extend(part["cases"])
+        run.failures.extend(part["failures"])
+        for k, v in part["extra"].items():
+            if isinstance(v, (int, float)) and not isinstance(v, bool) and isinstance(run.extra.get(k, 0), (int, float)):
+                run.extra[k] = run.extra.get(k, 0) + v
+            elif i == 0 or k not in run.extra:
+                run.extra[k] = v
+        if i == 0:
+            run.rule, run.assumptions, run.exhaustive = part["rule"], part["assumptions"], part["exhaustive"]
+    run.extra["worker_processes"] = jobs
+
+
 def main() -> int:
     ap = argparse.ArgumentParser()
     ap.add_argument("prop")
@@ -53,7 +83,10 @@ def main() -> int:
     run = core.Run(args.prop, args.tier, seed, theorems)
     try:
         run.proof = core.proof_obligations(theorems, args.tier)
-        if hasattr(mod, "run_prop"):
+        jobs = int(os.environ.get("VERIF_JOBS", "0")) or (min(16, os.cpu_count() or 1) if args.tier == "thorough" else 1)
+        if jobs > 1 and args.prop in getattr(mod, "SHARDED", ()):
+            run_sharded(mod, args.prop, run, jobs)
+        elif hasattr(mod, "run_prop"):
             mod.run_prop(args.prop, run)
         else:
             mod.run(run)
